@@ -237,6 +237,16 @@ impl<'a> Runner<'a> {
                 writeln!(self.out.exp, "out={} | st={} | tr=", out, post).unwrap();
                 writeln!(self.out.ctx, "H{} {}", self.hid, self.ops.len() - 1).unwrap();
                 self.out.lines += 1;
+                // the capacity `height()` reserves for the export's stack, on the arena as it is now
+                // (`Arena.heightCap`, `arena_export_stack_capacity`)
+                if op.name == "insert" || op.name == "export" {
+                    if let Some(sc) = self.real.stack_capacity() {
+                        writeln!(self.out.req, "a{} stackcap | {} | {}", self.coll, post, self.real.dflt()).unwrap();
+                        writeln!(self.out.exp, "out={} | st={} | tr=", sc, post).unwrap();
+                        writeln!(self.out.ctx, "H{} {}", self.hid, self.ops.len() - 1).unwrap();
+                        self.out.lines += 1;
+                    }
+                }
             } else {
             writeln!(self.out.req, "{} {} | {}", self.coll, op.text(), pre).unwrap();
             match self.real.abs_note() {
